@@ -153,3 +153,43 @@ Definition folder_texts {O : numops} (repr : num O -> str) (f : folder O) : list
 (* the whole ruleset of the model installed below [base] *)
 Definition install_all {O : numops} (repr : num O -> str) (base : path) (dirs : list (str * folder O)) (fs : fsys) : fsys :=
   fold_left (fun fs df => fs_install (path_join base (fst df)) (folder_texts repr (snd df)) fs) dirs fs.
+
+(* ---------------------------------------------------------------- what the theorems about the writers assume / state *)
+
+(* every line of every counter of a folder can be encoded *)
+Definition all_encodable {O : numops} (repr : num O -> str) (encb : str -> N -> bool) (enc : str)
+    (cl : list (pykey * counter O)) : bool :=
+  forallb (fun kc => encodable repr encb enc (calc_probs (snd kc))) cl.
+
+(* Grammar and Prince are written as ASCII, the other folders with the training encoding *)
+Definition enc_of (enc dir : str) : str :=
+  if str_eqb dir (str_of_string "Grammar"%string) || str_eqb dir (str_of_string "Prince"%string) then str_of_string "ASCII"%string else enc.
+
+Definition ruleset_encodable {O : numops} (repr : num O -> str) (encb : str -> N -> bool) (enc : str)
+    (dirs : list (str * folder O)) : bool :=
+  forallb (fun df => forallb (fun nf => encodable repr encb (enc_of enc (fst df)) (snd nf)) (snd df)) dirs.
+
+(* the length-indexed counters are dicts: their keys are distinct *)
+Definition pcounters_wf (P : pcounters) : Prop :=
+  NoDup (map fst (pc_alpha P)) /\ NoDup (map fst (pc_digits P)) /\ NoDup (map fst (pc_other P)) /\
+  NoDup (map fst (pc_keyboard P)) /\ NoDup (map fst (pc_masks P)).
+
+(* str(key) + '.txt' for every key, as json.dumps will list it *)
+Definition name_list {V : Type} (d : list (pykey * V)) : list pykey :=
+  map (fun kv => KStr (file_name (py_str (fst kv)))) d.
+
+(* what the model expects of the configuration built for a parser object: section -> names of its files
+   (Counters.config_lists, and START -> grammar.txt) and section -> directory *)
+Definition expected_names {O : numops} (pp : parser_obj O) : list (str * list pykey) :=
+  let s_ := str_of_string in
+  [ (s_ "START"%string, [KStr (s_ "grammar.txt"%string)]);
+    (s_ "BASE_A"%string, name_list (po_count_alpha pp));
+    (s_ "BASE_D"%string, name_list (po_count_digits pp));
+    (s_ "BASE_O"%string, name_list (po_count_other pp));
+    (s_ "BASE_K"%string, name_list (po_count_keyboard pp));
+    (s_ "BASE_X"%string, [KStr (s_ "1.txt"%string)]);
+    (s_ "BASE_Y"%string, [KStr (s_ "1.txt"%string)]);
+    (s_ "CAPITALIZATION"%string, name_list (po_count_alpha_masks pp)) ].
+
+Definition expected_dirs : list (str * str) :=
+  (str_of_string "START"%string, str_of_string "Grammar"%string) :: config_dirs.
